@@ -1466,3 +1466,165 @@ Proof.
   - simpl mk_quantiles. change (nth (S j) (?a :: ?l) 0) with (nth j l 0).
     rewrite IH by lia. reflexivity.
 Qed.
+
+(* ======================================================================== *)
+(* 10. Serialise / restore is transparent; max_t inference; round-off class  *)
+(* ======================================================================== *)
+
+Lemma sl_add_snoc md e acc :
+  Forall (fun x => sort_key md (e_metric x) <= sort_key md (e_metric e)) acc -> sl_add md e acc = acc ++ [e].
+Proof.
+  induction 1 as [|x l Hx Hl IH]; simpl; [reflexivity|].
+  apply Qleb_le in Hx. rewrite Hx, IH. reflexivity.
+Qed.
+
+Lemma ssorted_app_mid {A} (R : A -> A -> Prop) l1 x l2 :
+  StronglySorted R (l1 ++ x :: l2) -> Forall (fun y => R y x) l1.
+Proof.
+  induction l1 as [|a l1 IH]; simpl; intro H; [constructor|].
+  inversion H as [|? ? Hs Hf]; subst. constructor; [|apply IH; exact Hs].
+  rewrite Forall_forall in Hf. apply Hf. apply in_or_app. right. left. reflexivity.
+Qed.
+
+Lemma sl_rebuild_from md data : forall acc, best_first md (acc ++ data) ->
+  fold_left (fun a e => sl_add md e a) data acc = acc ++ data.
+Proof.
+  induction data as [|e rest IH]; intros acc H; simpl; [rewrite app_nil_r; reflexivity|].
+  rewrite sl_add_snoc by (apply (ssorted_app_mid (fun a b => sort_key md (e_metric a) <= sort_key md (e_metric b)) acc e rest); exact H).
+  rewrite IH; rewrite <- app_assoc; [reflexivity|exact H].
+Qed.
+
+(* rebuilding a best-first list with the same key gives the same list (ties keep their order) *)
+Lemma sl_rebuild_id md data : best_first md data -> sl_rebuild md data = data.
+Proof. intro H. unfold sl_rebuild. apply (sl_rebuild_from md data []). exact H. Qed.
+
+Lemma restore_state_id cfg st : Inv cfg st -> restore_state cfg st = st.
+Proof.
+  intros [H _]. unfold restore_state. destruct st as [sys task act]. simpl in *. f_equal.
+  rewrite <- (map_id sys) at 2. apply map_ext_in. intros s Hs.
+  rewrite Forall_forall in H. destruct (H s Hs) as [_ Hok]. unfold restore_sys. destruct s as [rs thr]. simpl in *. f_equal.
+  rewrite <- (map_id rs) at 2. apply map_ext_in. intros rg Hrg.
+  rewrite Forall_forall in Hok. destruct (Hok rg Hrg) as [_ [Hbf _]].
+  unfold restore_rung. destruct rg as [lv pq data]. simpl in *. f_equal. apply sl_rebuild_id. exact Hbf.
+Qed.
+
+(* a save / load of the scheduler at ANY point of ANY event sequence changes nothing: every later
+   decision is the one of the uninterrupted run *)
+Theorem restore_transparent cfg levels brackets evs1 evs2 :
+  wf_levels levels (c_max_t cfg) ->
+  run cfg (restore_state cfg (reached cfg levels brackets evs1)) evs2 = reached cfg levels brackets (evs1 ++ evs2) /\
+  outcomes cfg (restore_state cfg (reached cfg levels brackets evs1)) evs2 =
+    outcomes cfg (reached cfg levels brackets evs1) evs2.
+Proof.
+  intro Hwf. rewrite restore_state_id by (apply reached_inv; exact Hwf).
+  split; [|reflexivity]. unfold reached, run. rewrite fold_left_app. reflexivity.
+Qed.
+
+(* restore commutes with the mode mirror (no sortedness needed) *)
+Lemma sl_rebuild_neg data : sl_rebuild Max (neg_data data) = neg_data (sl_rebuild Min data).
+Proof.
+  unfold sl_rebuild. change (@nil entry) with (neg_data []) at 1. generalize (@nil entry) as acc.
+  induction data as [|e rest IH]; intro acc; simpl; [reflexivity|].
+  rewrite (sl_add_neg e acc). apply IH.
+Qed.
+
+Lemma restore_state_neg cfg st : c_mode cfg = Min ->
+  restore_state (with_mode Max cfg) (neg_state st) = neg_state (restore_state cfg st).
+Proof.
+  intro Hmd. unfold restore_state, neg_state. simpl. rewrite Hmd. f_equal. rewrite !map_map.
+  apply map_ext. intro sys. unfold restore_sys, neg_sys. simpl. f_equal. rewrite !map_map.
+  apply map_ext. intro rg. unfold restore_rung, neg_rung. simpl. f_equal. apply sl_rebuild_neg.
+Qed.
+
+(* --- maximum resource ------------------------------------------------------------------------ *)
+Lemma infer_max_arg v a cs : infer_max_resource_level (Some v) a cs = Some v.
+Proof. reflexivity. Qed.
+
+Lemma infer_max_attr a cs v : cs_getval cs a = Some v -> infer_max_resource_level None (Some a) cs = Some v.
+Proof. intro H. unfold infer_max_resource_level. simpl. rewrite H. reflexivity. Qed.
+
+Lemma infer_max_default a cs :
+  (match a with Some n => cs_getval cs n = None | None => True end) ->
+  infer_max_resource_level None a cs = first_some cs default_max_t_names.
+Proof. intro H. unfold infer_max_resource_level. destruct a as [n|]; [simpl; rewrite H|]; reflexivity. Qed.
+
+(* --- the round-off class ---------------------------------------------------------------------- *)
+(* any evaluation c' of the cutoff that is within d of the exact cutoff c decides exactly like the
+   exact rule whenever the metric is further than d from c *)
+Lemma no_worse_approx md m c c' d :
+  - d <= c' - c <= d -> (m - c < - d \/ d < m - c) -> no_worse md m c' = no_worse md m c.
+Proof.
+  intros H1 H2. destruct md; simpl; apply Qleb_iff_eq; split; intro; destruct H2; lra.
+Qed.
+
+Theorem approx_cutoff_decides_by_rule md pq ms own c' d :
+  (2 <= length ms)%nat ->
+  let c := np_quantile (sort_asc ms) (quantile_level md pq) in
+  - d <= c' - c <= d -> (own - c < - d \/ d < own - c) ->
+  no_worse md own c' = rule_b md pq ms own.
+Proof.
+  intros Hl c H1 H2. unfold rule_b. destruct (length ms <? 2)%nat eqn:E; [lia|]. simpl.
+  apply no_worse_approx with (d := d); assumption.
+Qed.
+
+(* --- top bracket, first level ------------------------------------------------------------------ *)
+Theorem top_bracket_no_rung cfg levels brackets evs b sys :
+  let st := reached cfg levels brackets evs in
+  nth_error (s_sys st) (sys_id cfg b) = Some sys -> (length levels <= b)%nat -> own_rungs cfg st b = [].
+Proof.
+  intros st Hs Hb. pose proof (own_rung_levels cfg levels brackets evs b sys Hs) as H. fold st in H.
+  rewrite skipn_all2 in H by exact Hb. simpl in H. apply map_eq_nil in H. exact H.
+Qed.
+
+Theorem top_bracket_never_decides cfg levels brackets evs b sys t r m :
+  wf_levels levels (c_max_t cfg) ->
+  let st := reached cfg levels brackets evs in
+  nth_error (s_sys st) (sys_id cfg b) = Some sys -> (length levels <= b)%nat ->
+  running st t -> (1 <= r < c_max_t cfg)%Z -> assoc_get (s_task st) t = Some b ->
+  on_trial_result cfg st t r m = (st, Dec CONTINUE).
+Proof.
+  intros Hwf st Hs Hb Hr Hrange Ht.
+  apply (c03_continue_off_rung cfg levels brackets evs t r m b Hwf Hr Hrange Ht).
+  assert (Hn : own_rungs cfg st b = []) by (apply (top_bracket_no_rung cfg levels brackets evs b sys Hs Hb)).
+  intros rg Hin. change (own_rungs cfg (reached cfg levels brackets evs) b) with (own_rungs cfg st b) in Hin.
+  rewrite Hn in Hin. contradiction.
+Qed.
+
+Lemma removelast_hd (x : Z) rest : rest <> [] -> removelast (x :: rest) = x :: removelast rest.
+Proof. destruct rest; [congruence|reflexivity]. Qed.
+
+Theorem sh_rung_levels_first grace rf incr max_t l :
+  sh_rung_levels None grace rf incr max_t = Some l -> exists rest, l = grace :: rest.
+Proof.
+  intro H. destruct (sh_rung_levels_wf None grace rf incr max_t l H) as [_ Hne].
+  unfold sh_rung_levels in H.
+  destruct ((1 <=? grace)%Z && (1 <=? max_t)%Z && (grace <? max_t)%Z) eqn:E; [|discriminate].
+  apply andb_true_iff in E as [E E3]. apply andb_true_iff in E as [E1 E2].
+  assert (Hfuel : exists f, Z.to_nat max_t = S f) by (exists (Z.to_nat max_t - 1)%nat; lia).
+  destruct Hfuel as [f Hf].
+  assert (Hshape : exists l0 rest0, l = (if (last l0 0 =? max_t)%Z then removelast l0 else l0) /\ l0 = grace :: rest0).
+  { destruct rf as [rf|].
+    - destruct (Qleb 2 rf); [|discriminate]. simpl in H. injection H as <-.
+      assert (Hlt : Qltb (inject_Z grace) (inject_Z max_t) = true) by (apply Qltb_lt; rewrite <- Zlt_Qlt; lia).
+      eexists. eexists. split; [reflexivity|]. rewrite Hf. simpl. rewrite Hlt, round_he_Z. reflexivity.
+    - destruct incr as [incr|]; [|discriminate]. destruct (1 <=? incr)%Z; [|discriminate]. simpl in H. injection H as <-.
+      eexists. eexists. split; [reflexivity|]. rewrite Hf. simpl. destruct (grace <? max_t)%Z eqn:Eg; [reflexivity|lia]. }
+  destruct Hshape as [l0 [rest0 [-> ->]]].
+  destruct (last (grace :: rest0) 0 =? max_t)%Z eqn:El; [|eexists; reflexivity].
+  destruct rest0 as [|y r]; [simpl in Hne; congruence|]. rewrite removelast_hd by discriminate. eexists. reflexivity.
+Qed.
+
+Theorem stopping_symmetry_across_restore cfg levels brackets evs1 evs2 :
+  c_mode cfg = Min -> wf_levels levels (c_max_t cfg) ->
+  outcomes (with_mode Max cfg)
+           (restore_state (with_mode Max cfg) (reached (with_mode Max cfg) levels brackets (map neg_event evs1)))
+           (map neg_event evs2) =
+  outcomes cfg (restore_state cfg (reached cfg levels brackets evs1)) evs2.
+Proof.
+  intros Hmd Hwf.
+  destruct (stopping_mode_symmetry_from_init cfg levels brackets evs1 Hmd Hwf) as [H1 _]. rewrite H1.
+  rewrite (restore_state_neg cfg _ Hmd).
+  assert (HI : Inv cfg (restore_state cfg (reached cfg levels brackets evs1))).
+  { rewrite restore_state_id; apply reached_inv; exact Hwf. }
+  exact (proj2 (stopping_mode_symmetry cfg evs2 _ Hmd HI)).
+Qed.
